@@ -388,8 +388,10 @@ class DocstringParser(AbstractDocstringParser):
     def _get_griffe_node(self, qname: str) -> Object | None:
         node_qname_parts = qname.split(".")
         griffe_node = self.griffe_build
-        for part in node_qname_parts:
-            if griffe_node.name == part:
+        for index, part in enumerate(node_qname_parts):
+            # The first part of the qualified name is the package itself. Later parts with that name (or with the name
+            # of the node we are currently in, e.g. a function that is named like its module) have to be looked up.
+            if index == 0 and griffe_node.name == part:
                 continue
 
             if part in griffe_node.modules:
